@@ -1358,14 +1358,14 @@ FINDINGS = [
              "(the file content is re-read, its imports are not) until basic.load_metadata() is called; e.g. load b; remove "
              "the import of a from b.json; load b -> still built on a. No small safe fix: the import graph is cached per "
              "user and checked for cycles only in load_metadata (the web app calls it when listing files)"},
-    {"status": "fixed", "key": "fresh-process:load_theory(smt)", "commit": "6d18849",
+    {"status": "fixed", "key": "fresh-process:load_theory(smt)", "commit": "4739227",
      "what": "in a fresh process load_theory('smt') (also 'verit') raised 'Constant of_int already exists': importing data.real "
              "inside the fresh_theory block of the importing theory ran basic.load_theory, which replaced theory.thy"},
-    {"status": "fixed", "key": "interrupted-load:partial-cache", "commit": "4d68838",
+    {"status": "fixed", "key": "interrupted-load:partial-cache", "commit": "1de202d",
      "what": "a load interrupted by an exception left timestamp + partial content in the cache; the next load silently gave a theory with items missing"},
-    {"status": "fixed", "key": "edit-of-imported-file:stale-dependant", "commit": "8872b65",
+    {"status": "fixed", "key": "edit-of-imported-file:stale-dependant", "commit": "1fd9367",
      "what": "after editing an imported file, the importing theory kept items parsed against the old version"},
-    {"status": "fixed", "key": "cycle:reported-once", "commit": "acb01b3",
+    {"status": "fixed", "key": "cycle:reported-once", "commit": "f7495fc",
      "what": "a cycle (or dangling import) was reported by the first load only, later loads succeeded or hit RecursionError; "
              "for users other than master the check ran on master's cache (KeyError 'master')"},
 ]
